@@ -14,7 +14,7 @@ ErrRef == JsonDeserialize(IOEnv.ERRREF)
 
 V(p, at, why) == [p |-> p, at |-> at, why |-> why]
 
-NoCur == [cols |-> << >>, cells |-> << >>, rows |-> << >>, n0 |-> 0]
+NoCur == [cols |-> << >>, cells |-> << >>, rows |-> << >>, n0 |-> 0, on |-> FALSE]
 CanonOf(vs) == [i \in 1..Len(vs) |-> vs[i].c]
 
 RowClosingOps == {"end_row", "write_row", "finish", "finish_one", "finish_error", "drop"}
@@ -73,8 +73,10 @@ Den(prog, i, cur, units, viol, ctx) ==
   ELSE IF res # "ok" THEN
      \* the program stops at the first refused call; a panic is never a conformant refusal
      [units |-> units,
-      viol |-> viol \cup (IF res = "err" THEN Refusal(prog[i], cur, ctx) ELSE {}) \cup (IF res = "panic" THEN {V(IF name \in {"write_col", "write_row"} /\ ctx.bin THEN "C07" ELSE "C03", ctx.at, "writer call panicked: " \o name)} ELSE {})]
-  ELSE IF name = "start" THEN Den(prog, i + 1, [cols |-> o.cols, cells |-> << >>, rows |-> << >>, n0 |-> 0], units, viol, ctx)
+      viol |-> viol \cup (IF res = "err" THEN Refusal(prog[i], cur, ctx) ELSE {}) \cup (IF res = "panic" THEN {V(IF name \in {"write_col", "write_row"} /\ ctx.bin THEN "C07" ELSE "C03", ctx.at, "writer call panicked: " \o name)}
+                               \cup (IF cur.on /\ nc = 0 THEN {V("C14", ctx.at, "a zero-column resultset ended in a panic instead of an OK carrying the number of rows ended")} ELSE {})
+                          ELSE {})]
+  ELSE IF name = "start" THEN Den(prog, i + 1, [cols |-> o.cols, cells |-> << >>, rows |-> << >>, n0 |-> 0, on |-> TRUE], units, viol, ctx)
   ELSE IF name = "write_col" THEN
      IF nc = 0 THEN Den(prog, i + 1, cur, units, viol, ctx)
      ELSE LET k == Len(cur.cells) + 1
